@@ -7,6 +7,7 @@ import (
 	"bytes"
 	"fmt"
 	"math/rand"
+	"runtime"
 	"sync"
 	"testing"
 	"time"
@@ -103,6 +104,28 @@ func runFrame(c FrameCase) vkit.Result {
 			return vkit.Failf("message changed in encode/decode: %s (spec %+v)", d, c.Msgs[i])
 		}
 	}
+	// what was returned stays what it was: further encodes / decodes (of other data) must not reach into an earlier result
+	encoded := f.Encode()
+	keep := append([]byte(nil), encoded...)
+	other := message.Frame{{ID: bytes.Repeat([]byte{0xEE}, 24), Channel: []byte("zz/other/"), Payload: bytes.Repeat([]byte{0xDD}, 300), TTL: 77},
+		{ID: bytes.Repeat([]byte{0xCC}, 24), Channel: []byte("zz/more/"), Payload: bytes.Repeat([]byte{0xBB}, 3000), TTL: 78}}
+	for round := 0; round < 3; round++ {
+		o2, err := message.DecodeFrame(other.Encode())
+		if err != nil || len(o2) != 2 || sameMsg(o2[1], other[1]) != "" {
+			return vkit.Failf("a second frame does not decode (%v)", err)
+		}
+		if m2, err := message.DecodeMessage(other[round%2].Encode()); err != nil || sameMsg(m2, other[round%2]) != "" {
+			return vkit.Failf("a second message does not decode (%v)", err)
+		}
+	}
+	if !bytes.Equal(encoded, keep) {
+		return vkit.Failf("the bytes returned by Frame.Encode changed after other frames were encoded")
+	}
+	for i := range f {
+		if d := sameMsg(f[i], out[i]); d != "" {
+			return vkit.Failf("message %d of a decoded frame changed after OTHER frames were decoded: %s (spec %+v)", i, d, c.Msgs[i])
+		}
+	}
 	big := false
 	for _, s := range c.Msgs {
 		if s.Payload >= 16384 || s.TTL >= 65536 {
@@ -113,6 +136,46 @@ func runFrame(c FrameCase) vkit.Result {
 }
 
 func TestCodec(t *testing.T) { vkit.Check(t, genFrame, runFrame) }
+
+// TestCodecConcurrent: frames are encoded and decoded by several goroutines at once (forwarding to and from several
+// peers); every goroutine must get its own data back.
+func TestCodecConcurrent(t *testing.T) {
+	rounds := vkit.N(20)
+	for round := 0; round < rounds; round++ {
+		const G = 8
+		var wg sync.WaitGroup
+		errs := make(chan string, G)
+		for g := 0; g < G; g++ {
+			wg.Add(1)
+			go func(g int) {
+				defer wg.Done()
+				for i := 0; i < 300; i++ {
+					spec := MsgSpec{ID: 24, Channel: 5 + g, Payload: []int{10, 300, 5000, 20000}[(i+g)%4], TTL: uint32(g*1000 + i), Fill: byte(g*31 + i)}
+					f := message.Frame{spec.build(), MsgSpec{ID: 24, Channel: 3, Payload: 1 + i%50, TTL: uint32(i), Fill: byte(g)}.build()}
+					out, err := message.DecodeFrame(f.Encode())
+					runtime.Gosched()
+					if err != nil || len(out) != 2 || sameMsg(out[0], f[0]) != "" || sameMsg(out[1], f[1]) != "" {
+						errs <- fmt.Sprintf("goroutine %d iteration %d: frame does not survive encode/decode while %d goroutines use the codec (%v)", g, i, G, err)
+						return
+					}
+					m, err := message.DecodeMessage(f[0].Encode())
+					if err != nil || sameMsg(m, f[0]) != "" {
+						errs <- fmt.Sprintf("goroutine %d iteration %d: message does not survive encode/decode while %d goroutines use the codec (%v)", g, i, G, err)
+						return
+					}
+				}
+			}(g)
+		}
+		wg.Wait()
+		select {
+		case m := <-errs:
+			vkit.ReportFailure(t.Name(), map[string]int{"round": round}, m, "")
+			t.Fatal(m)
+		default:
+		}
+		vkit.Record(t.Name(), map[string]int{"round": round, "goroutines": G}, vkit.OK(true, "codec-concurrent"))
+	}
+}
 
 // ---------------------------------------------------------------------------------------------
 
